@@ -388,3 +388,82 @@ func progsPingPong(t *testing.T, prop string, modes []string) {
 		}
 	}
 }
+
+// ---------------------------------------------------------------- C12: very many inputs, inputs of enormous capacity
+
+func init() {
+	// "for any number of inputs": far more inputs than any fixed-size select or descriptor table holds. All inputs are
+	// closed already, a few of them carry one element.
+	progs["join-very-many-inputs"] = func(c *caseT) string {
+		ctx, cancel := context.WithCancel(context.Background())
+		defer cancel()
+		ins := make([]<-chan int, c.N)
+		want := 0
+		for i := range ins {
+			ch := make(chan int, 1)
+			if i%997 == 3 {
+				ch <- i + 1
+				want++
+			}
+			close(ch)
+			ins[i] = ch
+		}
+		out := api.Join(ctx, ins...)
+		seen := map[int]bool{}
+		for v := range out {
+			if v < 1 || v > c.N || (v-1)%997 != 3 || seen[v] {
+				return fmt.Sprintf("Join of %d inputs delivered %d, which no input held (or twice)", c.N, v)
+			}
+			seen[v] = true
+		}
+		if len(seen) != want {
+			return fmt.Sprintf("Join of %d closed inputs delivered %d of the %d elements they held", c.N, len(seen), want)
+		}
+		return ""
+	}
+	// channels of a zero-size element type may have any capacity (their buffer needs no memory)
+	progs["join-zero-size-huge-capacity"] = func(c *caseT) string {
+		ctx, cancel := context.WithCancel(context.Background())
+		defer cancel()
+		caps := []int{8, 1<<31 - 1, 1<<62 + 1, 1<<63 - 1}
+		k := caps[c.N%len(caps)]
+		a, b := make(chan struct{}, k), make(chan struct{}, k)
+		for i := 0; i < 5; i++ {
+			a <- struct{}{}
+		}
+		close(a)
+		var out <-chan struct{}
+		if c.Comment == "fork" {
+			out = fork.Join[struct{}](ctx, a, b)
+		} else {
+			out = pipe.Join[struct{}](ctx, a, b)
+		}
+		n := 0
+		for i := 0; i < 5; i++ {
+			if _, ok := <-out; !ok {
+				return fmt.Sprintf("Join of two struct{} inputs of capacity %d closed after %d of 5 elements while one input is open", k, n)
+			}
+			n++
+		}
+		b <- struct{}{}
+		if _, ok := <-out; !ok {
+			return fmt.Sprintf("Join of two struct{} inputs of capacity %d closed while one input is open", k)
+		}
+		close(b)
+		if _, ok := <-out; ok {
+			return "an element nobody sent"
+		}
+		return ""
+	}
+}
+
+func progsJoinExtremes(t *testing.T, prop string) {
+	for _, v := range []string{"", "fork"} {
+		for _, n := range []int{65535, 65536, 65537, 70001} {
+			runProg(t, prop, &caseT{Stage: "prog/join-very-many-inputs", N: n, Comment: v})
+		}
+		for i := 0; i < 4; i++ {
+			runProg(t, prop, &caseT{Stage: "prog/join-zero-size-huge-capacity", N: i, Comment: v})
+		}
+	}
+}
